@@ -18,9 +18,12 @@ Tampers == {"none",
             "signer", "sig_flip", "sig_short", "sig_empty", "sig_bad_b64", "forged_zero_key",
             "chain_differs_signer_owner", "chain_differs_signer_chain",
             "address", "address_unknown", "workchain", "addr_bad_hex", "addr_friendly",
+            "wc_plus256", "wc_minus256", "wc_plus512", "wc_plus65536", "wc_minus65536", "wc_plus16777216", "wc_int32_max", "wc_int32_min",
             "domain", "domain_foreign", "domain_swapped", "timestamp",
             "payload", "payload_foreign_secret", "payload_short", "payload_long", "payload_bad_hex", "payload_mac_flip",
-            "si_other", "si_attacker", "si_unknown_code", "si_no_code", "si_no_data", "si_no_code_no_data", "si_short_data",
+            "si_other", "si_attacker", "si_unknown_code",
+            "sih_honest", "sih_root_only", "sih_root_claims_victim", "sih_all_claims_victim", "sih_wrong_root_hash", "sih_wrong_root_depth",
+            "sih_wrong_inner_hash", "sih_code_claims_wallet", "si_no_code", "si_no_data", "si_no_code_no_data", "si_short_data",
             "si_multi_root", "si_garbage", "si_truncated", "si_bad_b64", "si_empty"}
 
 Honest(src, ver, time) ==
@@ -47,6 +50,9 @@ Apply(t, f, src) ==
     [] t = "address" -> [NoSig(f) EXCEPT !.siWallet = "std"]
     [] t = "address_unknown" -> [NoSig(NoChain(f)) EXCEPT !.siHash = FALSE]
     [] t = "workchain" -> NoSig(NoChain(f))
+    \* only the workchain of the presented address differs, by a multiple of 2^8 / 2^16 / 2^24 or to an end of the int32 range:
+    \* the signed message carries all 32 bits of it
+    [] t \in {"wc_plus256", "wc_minus256", "wc_plus512", "wc_plus65536", "wc_minus65536", "wc_plus16777216", "wc_int32_max", "wc_int32_min"} -> NoSig(NoChain(f))
     [] t \in {"addr_bad_hex", "addr_friendly"} -> [f EXCEPT !.addrWf = FALSE]
     [] t = "domain" -> [NoSig(f) EXCEPT !.domOK = FALSE]
     [] t = "domain_foreign" -> [f EXCEPT !.domOK = FALSE]
@@ -55,6 +61,15 @@ Apply(t, f, src) ==
     [] t = "si_other" -> [f EXCEPT !.siHash = FALSE, !.siKey = "other", !.sigSi = FALSE]
     \* the attack the hash check is there for: somebody else's address, the attacker's own wallet state-init and signature
     [] t = "si_attacker" -> [f EXCEPT !.siHash = FALSE, !.siKey = "other", !.sigChain = FALSE]
+    \* the state-init bag written "with hashes" (stored hash and depth in front of the cells' data):
+    \* correct stored values (in every cell / in the root only): the same state-init as the plain bag
+    [] t \in {"sih_honest", "sih_root_only"} -> f
+    \* the attacker's own wallet state-init whose root (or every cell) is LABELLED with the victim's account id, signed by the attacker
+    [] t \in {"sih_root_claims_victim", "sih_all_claims_victim"} -> [f EXCEPT !.siHash = FALSE, !.siKey = "other", !.sigChain = FALSE, !.siCanon = FALSE]
+    \* an honest proof whose bag carries a wrong stored value: not a serialiser's output; refuse it or ignore the stored values
+    [] t \in {"sih_wrong_root_hash", "sih_wrong_root_depth", "sih_wrong_inner_hash"} -> [f EXCEPT !.siCanon = FALSE]
+    \* some other code labelled with the hash of the wallet's code (address = the hash of the real content)
+    [] t = "sih_code_claims_wallet" -> [NoKey(f) EXCEPT !.siWallet = "unknown", !.siCanon = FALSE]
     [] t = "si_unknown_code" -> [NoKey(f) EXCEPT !.siWallet = "unknown"]
     [] t = "si_no_code" -> [f EXCEPT !.siCode = FALSE]
     [] t = "si_no_data" -> [f EXCEPT !.siData = FALSE]
